@@ -1818,7 +1818,20 @@ std::string Generator::GeneratorImpl::generateEquationCode(const AnalyserEquatio
         // Generate any dependency that this equation may have.
 
         if (!isSomeConstant(equation, includeComputedConstants)) {
-            for (const auto &dependency : equation->dependencies()) {
+            // Note: an NLA system is solved as a whole, so the dependencies of
+            //       its NLA siblings are also needed.
+
+            auto dependencies = equation->dependencies();
+
+            for (const auto &nlaSibling : equation->nlaSiblings()) {
+                for (const auto &dependency : nlaSibling->dependencies()) {
+                    if (std::find(dependencies.begin(), dependencies.end(), dependency) == dependencies.end()) {
+                        dependencies.push_back(dependency);
+                    }
+                }
+            }
+
+            for (const auto &dependency : dependencies) {
                 if ((dependency->type() != AnalyserEquation::Type::ODE)
                     && !isSomeConstant(dependency, includeComputedConstants)
                     && (equationsForDependencies.empty()
